@@ -62,18 +62,27 @@ impl Interface for Scripted {
                 }
                 let vs = p["vs"].as_array().cloned().unwrap_or_default();
                 let n = vs.len();
+                // "explicit_false": the final reply spells out "continues": false instead of omitting the member
+                let fin = |mut r: Reply| {
+                    if p["explicit_false"] == json!(true) {
+                        r.continues = Some(false);
+                    }
+                    r
+                };
                 call.set_continues(true);
                 for (i, v) in vs.iter().enumerate() {
                     if method == "Stream" && i + 1 == n {
                         call.set_continues(false);
+                        call.reply_struct(fin(Reply::parameters(obj(Some(v)))))?;
+                        continue;
                     }
                     call.reply_struct(Reply::parameters(obj(Some(v))))?;
                 }
                 call.set_continues(false);
                 match method.as_str() {
-                    "Stream" if n == 0 => call.reply_struct(Reply::parameters(None)),
+                    "Stream" if n == 0 => call.reply_struct(fin(Reply::parameters(None))),
                     "Stream" => Ok(()),
-                    "FailMid" => call.reply_struct(Reply::error(p["name"].as_str().unwrap_or("x.y.Z").to_string(), obj(p.get("params")))),
+                    "FailMid" => call.reply_struct(fin(Reply::error(p["name"].as_str().unwrap_or("x.y.Z").to_string(), obj(p.get("params"))))),
                     _ => Err(varlink::context!(varlink::ErrorKind::ConnectionClosed)),
                 }
             }
